@@ -236,6 +236,27 @@ func c01Route(p *core.Prog, r *core.Run, m *echModel, rule string) {
 		fs := p.Facts(st.Block())
 		innerNN := core.HasFact(fs, "!=", `new<ech\.Conn>\.inner`, "nil")
 		innerNil := core.HasFact(fs, "==", `new<ech\.Conn>\.inner`, "nil")
+		if ph, isPhi := h.Val.(*ssa.Phi); isPhi {
+			// one Marshal call on a hello selected beforehand: judge every way
+			// the selection is made
+			for i, e := range ph.Edges {
+				he := p.X(e)
+				efs := append(p.EdgeFacts(ph.Block().Preds[i], ph.Block()), fs...)
+				nn := core.HasFact(efs, "!=", `new<ech\.Conn>\.inner`, "nil")
+				isNil := core.HasFact(efs, "==", `new<ech\.Conn>\.inner`, "nil")
+				switch {
+				case he.Op == "field" && he.Obj == m.fConn["inner"]:
+					gotInner = nn
+					r.Check(rule, "NewConn:first-flight-inner", nn, p.InstrPos(st), "inner.Marshal() is forwarded only when inner != nil")
+				case he.Op == "field" && he.Obj == m.fConn["outer"]:
+					gotOuter = isNil
+					r.Check(rule, "NewConn:first-flight-outer", isNil, p.InstrPos(st), "outer.Marshal() is forwarded exactly when inner == nil")
+				default:
+					r.Check(rule, "NewConn:first-flight", false, p.InstrPos(st), "unexpected hello marshalled: %s", short(he))
+				}
+			}
+			continue
+		}
 		switch {
 		case h.Op == "field" && h.Obj == m.fConn["inner"]:
 			gotInner = innerNN
